@@ -581,13 +581,11 @@ func (x *Exec) goDiv(a, c *smt.Term) *smt.Term {
 		return x.b.IntBig(new(big.Int).Quo(a.IntV, c.IntV))
 	}
 	d := x.b.App("div", "Int", a, c)
-	if c.IntV != nil && c.IntV.Sign() > 0 {
-		// a >= 0: div ; a < 0: -((-a) div c)
-		return x.b.Ite(x.b.Cmp(">=", a, x.b.Int(0)), d, x.b.Neg(x.b.App("div", "Int", x.b.Neg(a), c)))
-	}
-	// general: truncate toward zero
+	// truncate toward zero: a >= 0: div ; a < 0: -((-a) div c)
 	nd := x.b.Neg(x.b.App("div", "Int", x.b.Neg(a), c))
-	return x.b.Ite(x.b.Cmp(">=", a, x.b.Int(0)), d, nd)
+	q := x.b.Ite(x.b.Cmp(">=", a, x.b.Int(0)), d, nd)
+	x.divHints(a, c, q)
+	return q
 }
 
 func (x *Exec) goRem(a, c *smt.Term) *smt.Term {
@@ -595,7 +593,11 @@ func (x *Exec) goRem(a, c *smt.Term) *smt.Term {
 		return x.b.IntBig(new(big.Int).Rem(a.IntV, c.IntV))
 	}
 	// a - c * trunc(a/c)
-	return x.b.Sub(a, x.b.Mul(c, x.goDiv(a, c)))
+	r := x.b.Sub(a, x.b.Mul(c, x.goDiv(a, c)))
+	if rest, ok := x.divRest[[2]int{a.ID, c.ID}]; ok {
+		x.divAlias[r.ID] = rest
+	}
+	return r
 }
 
 // rdSlice reads element off+idx of a backing array. A symbolic offset goes
